@@ -451,7 +451,7 @@ pub fn run(rep: &mut Report) {
     }
     rep.extra.insert("scenarios".into(), json!(done));
     rep.extra.insert("distinct_request_orders".into(), json!(all_outcomes.len()));
-    rep.rule = "per scenario (ordered pairs - and triples at thorough - of calls on clones of one endpoint: reply-bearing, acknowledged and fire-and-forget frontend operations with NEED_REPLY on/off, Backend proxy calls in ack and no-ack mode, GPU proxy calls): all schedules of the caller threads and the answering peer with at most 2 (4 at thorough) preemptions; scheduling points lock_point (endpoint mutex), sendmsg, recvmsg. Oracle in every state: no request on the wire while a reply is unread, no request behind a reply-awaiting request; at the end: every caller returned the value tagged for its own request, all callers completed. Non-trivial = schedules with at least one real choice".into();
+    rep.rule = "per scenario (ordered pairs - and triples at thorough - of calls on clones of one endpoint: reply-bearing, acknowledged and fire-and-forget frontend operations with NEED_REPLY on/off, Backend proxy calls in ack and no-ack mode, GPU proxy calls): all schedules of the caller threads and the answering peer with at most 2 (4 at thorough) preemptions; scheduling points lock_point (endpoint mutex), sendmsg, recvmsg. Oracle in every state: no request on the wire while a reply is unread, no request behind a reply-awaiting request; at the end: every caller returned the value tagged for its own request, all callers completed. Non-trivial = schedules that preempt a runnable thread at least once (all schedules are distinct)".into();
     rep.assumptions.push("callers block only at the endpoint mutex (hook), sendmsg or recvmsg; a thread blocked elsewhere is detected through /proc and treated as blocked".into());
 }
 
